@@ -272,6 +272,17 @@ def check(run, ctx):
             else:
                 run.finding(E9, fq.replace("src.", "", 1), f"sql-text-binding:{pt[:60]}", f"{fq} binds {pt} with no handler: sqlite3 encodes str parameters as UTF-8 and raises UnicodeEncodeError (a ValueError) for a lone surrogate, which _safe_check_rule re-raises - one such string literal in one file ends every command with exit 2", f"{f.module.rel}:{call.lineno}")
 
+    E11 = run.rule("E11", "next(<iterator>) over file-derived nodes carries a default (or runs under a StopIteration handler) in every function reachable from a rule", floor=5,
+                   decides="a construct without the looked-for child (a method named by #private, a computed key or a string) does not raise StopIteration out of the rule, which the orchestrator would log and turn into 'no violations' for the whole file")
+    for fq in rule_funcs:
+        f = repo.funcs[fq]
+        for c in ast.walk(f.node):
+            if isinstance(c, ast.Call) and isinstance(c.func, ast.Name) and c.func.id == "next" and c.args:
+                sym = f"{fq.replace('src.', '', 1)}:{norm(c)[:50]}"
+                if len(c.args) >= 2 or is_caught(f.node, c, "StopIteration"):
+                    run.ok(E11, sym, "has a default / is under a handler")
+                else:
+                    run.finding(E11, fq.replace("src.", "", 1), f"next-without-default:{norm(c.args[0])[:60]}", f"{fq}: `{norm(c)[:90]}` raises StopIteration when nothing matches; inside a rule that is an unexpected exception: _safe_check_rule logs it and the rule reports nothing at all for the file (every command logs the failure)", f"{f.module.rel}:{c.lineno}")
     E10 = run.rule("E10", "a numeric literal's value is rendered as decimal text (f-string, str(), format) only under a ValueError handler", floor=3,
                    decides="an integer literal of more than 4300 digits (written in hex/octal/binary) does not raise 'Exceeds the limit for integer string conversion' out of the magic-number rule")
     for f in sorted(repo.funcs_in("src.linters.magic_numbers."), key=lambda x: x.qual):
